@@ -90,3 +90,27 @@ Definition C13_client_login_state_statement {E Sc Pk Sk} (CS : Suite E Sc Pk Sk)
 Theorem C13_client_login_state_at_each_of_the_20_suites : all_suites (fun _ _ _ _ CS => CurveLaws CS -> C13_client_login_state_statement CS).
 Proof. apply at_the_20_suites_g. exact C13_client_login_state. Qed.
 Print Assumptions C13_client_login_state_at_each_of_the_20_suites.
+
+(* ---------------------------------------------------------------- over histories: crashes change nothing
+   The world of Model/WorldCrash.v: a network adversary schedules the parties and chooses every message; between any two
+   steps the server may restart (setup restored from its serialization) and any pending server or client login session
+   may be saved and restored.  For EVERY such history (any length, any crash points), every restore succeeds and the
+   world reached - all pending states, all completed sessions with their keys, the tape - is exactly the world reached
+   by the same history without the crashes.  [good_ops]: the passwords of the client sessions do not hash to the
+   identity element. *)
+From OKE Require Import World WorldCrash CrashInv.
+Theorem C13_crashes_change_nothing_in_any_history :
+  forall E Sc Pk Sk (CS : Suite E Sc Pk Sk), HashLaws (hash CS) -> GroupLaws CS ->
+  forall tape0 setup rest0 tape ops,
+    server_setup_new CS tape0 = Ok (setup, rest0) -> good_ops CS ops ->
+    crun CS (init setup tape) ops = Ok (run CS (init setup tape) (erase ops)).
+Proof. exact @crashes_change_nothing. Qed.
+Print Assumptions C13_crashes_change_nothing_in_any_history.
+
+Definition C13_crashes_change_nothing_in_any_history_statement {E Sc Pk Sk} (CS : Suite E Sc Pk Sk) : Prop :=
+  forall tape0 setup rest0 tape ops,
+    server_setup_new CS tape0 = Ok (setup, rest0) -> good_ops CS ops ->
+    crun CS (init setup tape) ops = Ok (run CS (init setup tape) (erase ops)).
+Theorem C13_crashes_change_nothing_in_any_history_at_each_of_the_20_suites : all_suites (fun _ _ _ _ CS => CurveLaws CS -> C13_crashes_change_nothing_in_any_history_statement CS).
+Proof. apply at_the_20_suites. exact C13_crashes_change_nothing_in_any_history. Qed.
+Print Assumptions C13_crashes_change_nothing_in_any_history_at_each_of_the_20_suites.
